@@ -2323,6 +2323,9 @@ DLLIMPORT int cfg_addlist(cfg_t *cfg, const char *name, unsigned int nvalues, ..
 		return CFG_FAIL;
 	}
 
+	/* append to the default values too, as '+=' does */
+	opt->flags &= ~CFGF_RESET;
+
 	va_start(ap, nvalues);
 	cfg_addlist_internal(opt, nvalues, ap);
 	va_end(ap);
